@@ -8,6 +8,7 @@ import FqeVerif.Model.Sectors
 import FqeVerif.Model.Hamil
 import FqeVerif.Model.Evolve
 import FqeVerif.Model.Algo
+import FqeVerif.Model.Guards
 namespace Driver
 open Fock Model
 
@@ -40,6 +41,12 @@ def rdmSpec (norb mode : Nat) (bra ket : Vec) (groups : List Nat) (pat : List (N
         let p := idx.getD l 0
         ((if p < norb then 2 * p else 2 * (p - norb) + 1), dg)
       inner sbra (applyOpSpec [(1, term)] sket)
+
+def showRefusal : Option Refusal → String
+  | none => "ok"
+  | some .typeError => "TypeError"
+  | some .valueError => "ValueError"
+  | some .assertionError => "AssertionError"
 
 def cmd (name : String) : P String := do
   match name with
@@ -181,6 +188,21 @@ def cmd (name : String) : P String := do
       match r with
       | none => return "raise"
       | some k => return toString k
+  -- Model: guards.  answers `ok` / `TypeError` / `ValueError` / `AssertionError`
+  | "admit_apply" => do
+      let wN ← nat; let hN ← nat; let cls ← tok; let dim ← nat; let norb ← nat
+      let c ← match cls with
+        | "sparse" => pure HamClass.sparse | "diagonal" => pure HamClass.diagonal
+        | "diagcoulomb" => pure HamClass.diagCoulomb | "restricted" => pure HamClass.restricted
+        | "spinorbital" => pure HamClass.spinOrbital | _ => throw "bad class"
+      return showRefusal (admitApply (wN != 0) (hN != 0) c dim norb)
+  | "admit_axpy" => do let s ← nat; return showRefusal (admitAxpy (s != 0))
+  | "admit_ctor" => do
+      let a ← nat; let b ← nat; let c ← nat; let d ← nat
+      return showRefusal (admitCtor (a != 0) (b != 0) (c != 0) (d != 0))
+  | "admit_unitary" => do
+      let a ← nat; let b ← nat; let c ← nat; let d ← nat
+      return showRefusal (admitGeneratedUnitary (a != 0) (b != 0) (c != 0) (d != 0))
   | _ => throw s!"unknown command {name}"
 
 def handle (line : String) : String :=
